@@ -407,7 +407,7 @@ Ltac dec_shape pk c b p after fuel dst src :=
 (* dst long enough for the decoded prefix: that prefix is written to the front of dst, the rest of dst is untouched; the
    results are its length and the error (kind and offending byte) of the model; any fuel above len(src) / 2.
    (Go's int: j += 2 stays below 2^63 for every slice length.) *)
-Goal forall fuel dst src, (length src < 2 * fuel)%nat ->
+Theorem code_hexDecode : forall fuel dst src, (length src < 2 * fuel)%nat ->
   (length (fst (hex_decode src [])) <= length dst)%nat ->
   g_hexDecode fuel dst src =
   Ret (fst (hex_decode src []) ++ skipn (length (fst (hex_decode src []))) dst,
@@ -415,5 +415,36 @@ Goal forall fuel dst src, (length src < 2 * fuel)%nat ->
 Proof.
   intros fuel dst src Hf Hd. open_code.
   match goal with |- bind (while fuel ?c ?b ?p ?s) ?after = _ =>
-    dec_shape (fun (d : list Z) (i j : Z) => (d, i, j)) c b p after fuel dst src end.
-  Show.
+    first [ dec_shape (fun (d : list Z) (i j : Z) => (d, i, j)) c b p after fuel dst src | dec_shape (fun (d : list Z) (i j : Z) => (d, j, i)) c b p after fuel dst src
+          | dec_shape (fun (d : list Z) (i j : Z) => (i, d, j)) c b p after fuel dst src | dec_shape (fun (d : list Z) (i j : Z) => (j, d, i)) c b p after fuel dst src
+          | dec_shape (fun (d : list Z) (i j : Z) => (i, j, d)) c b p after fuel dst src | dec_shape (fun (d : list Z) (i j : Z) => (j, i, d)) c b p after fuel dst src ]
+  end.
+  reflexivity.
+Qed.
+
+(* ================================================================== HexDecode (strz/enc.go): make + hexDecode + dst[:n] *)
+Lemma hex_decode_len : forall n s, (length s <= n)%nat -> (2 * length (fst (hex_decode s [])) <= length s)%nat.
+Proof.
+  induction n as [|n IH]; intros s Hs.
+  - destruct s; [cbn; lia|cbn [length] in Hs; lia].
+  - destruct s as [|a [|b t]]; [cbn; lia| cbn [hex_decode]; destruct (from_hex a); cbn; lia |].
+    cbn [hex_decode]. destruct (from_hex a) as [x|] eqn:Ea; [|cbn; lia]. destruct (from_hex b) as [y|] eqn:Eb; [|cbn; lia].
+    rewrite hex_decode_acc. cbn [fst app length] in *. specialize (IH t ltac:(lia)). lia.
+Qed.
+Lemma firstn_exact {A} (l r : list A) : firstn (length l) (l ++ r) = l.
+Proof. rewrite firstn_app, Nat.sub_diag, firstn_all. cbn [firstn]. apply app_nil_r. Qed.
+
+Theorem code_HexDecode : forall fuel s, (length s < 2 * fuel)%nat ->
+  g_HexDecode fuel s = Ret (fst (hex_decode s []), herr_code (snd (hex_decode s []))).
+Proof.
+  intros fuel s Hf. open_code_keep g_HexDecode g_hexDecode.
+  pose proof (hex_decode_len (length s) s (le_n _)) as Hl.
+  assert (Hfit : (length (fst (hex_decode s [])) <= length s / 2)%nat) by (apply Nat.div_le_lower_bound; lia).
+  rewrite (m_make_eq _ (length s / 2)) by (unfold zlen; rewrite Z.quot_div_nonneg by lia; rewrite Nat2Z.inj_div; reflexivity). mev.
+  rewrite code_hexDecode by (rewrite ?repeat_length; lia). mev.
+  unfold zlen. rewrite m_slice_to by (rewrite app_length; lia). mev.
+  rewrite firstn_exact. reflexivity.
+Qed.
+Goal forall fuel s, g_underscoreOK fuel s = Ret (underscore_ok s).
+Proof. intros. cbv delta [g_underscoreOK]; cbv beta. head_let. head_let. 
+  match goal with |- context [let k := ?F in _] => set (K := F) end. Show.
